@@ -173,6 +173,9 @@ class InputsMachine(Machine):
         P['f32'] = np.where(np.isfinite(data), data, 0).astype(np.float32)
         P['error'] = np.abs(g.normal(1.0, 0.1, data.shape)) + 0.2
         P['error_q'] = P['error'].copy() * u.Jy
+        P['error_nan'] = P['error'].copy()
+        P['error_nan'][5, 7] = np.nan
+        P['error_nan'][int(sc['srcs'][0][1]), int(sc['srcs'][0][0])] = np.inf
         P['mask'] = mask.copy()
         P['background'] = g.normal(2.0, 0.1, data.shape)
         P['threshold'] = np.full(data.shape, 4.0)
@@ -259,7 +262,8 @@ class InputsMachine(Machine):
                              'catalog_new', 'profile_new'])
         op = {'op': name, 'data': rng.pick(DATA_REPRS),
               'use_mask': rng.chance(0.5), 'use_error': rng.chance(0.5),
-              'variant': rng.randrange(6)}
+              'variant': rng.randrange(6), 'nan_error': rng.chance(0.5),
+              'opt': rng.randrange(8)}
         if name == 'actor_read':
             op['actor'] = rng.pick(sorted(st.actors))
             op['pick'] = rng.randrange(1000)
@@ -319,6 +323,9 @@ class InputsMachine(Machine):
         error = P['error'] if op['use_error'] else None
         if op['data'] == 'q' and error is not None:
             error = P['error_q']
+        elif error is not None and op.get('variant', 0) in (1, 4) and \
+                op.get('nan_error'):
+            error = P['error_nan']
         out = fn(st, op, data, mask, error)
         st.nsteps += 1
         kind = ('raise' if isinstance(out, Raised) else
@@ -351,7 +358,8 @@ class InputsMachine(Machine):
             return self._run(st, op, lambda: aperture_photometry(data, aper))
         return self._run(st, op, lambda: aperture_photometry(
             data, aper, error=error, mask=mask,
-            method=['exact', 'center', 'subpixel'][v % 3]))
+            method=['exact', 'center', 'subpixel'][op.get('opt', v) % 3],
+            subpixels=3))
 
     def _s_aper_methods(self, st, op, data, mask, error):
         P = st.P
@@ -377,12 +385,16 @@ class InputsMachine(Machine):
         out = self._run(st, op, lambda: ApertureStats(
             src, P['aper'] if v % 2 else P['ann'],
             sigma_clip=SigmaClip(3.0) if v % 3 == 0 else None,
+            sum_method=['exact', 'center', 'subpixel'][op.get('opt', 0) % 3],
+            subpixels=3,
             local_bkg=P['xpos'] * 0 + 1.0 if v == 2 else None, **kw))
         self._keep(st, 'aperstats', out, op)
         return out
 
     def _s_background2d_new(self, st, op, data, mask, error):
-        from photutils.background import Background2D
+        from astropy.stats import SigmaClip
+        from photutils.background import (Background2D, BkgIDWInterpolator,
+                                          BkgZoomInterpolator)
         P = st.P
         v = op['variant']
         out = self._run(st, op, lambda: Background2D(
@@ -390,7 +402,12 @@ class InputsMachine(Machine):
                    (data.shape[0], 8), (15, 16)][v],
             mask=mask,
             coverage_mask=P['coverage'] if v in (1, 4) else None,
-            filter_size=3, filter_threshold=None if v < 3 else 5.0,
+            filter_size=[3, 1, (3, 5), 3][op.get('opt', 0) % 4],
+            filter_threshold=None if v < 3 else 5.0,
+            edge_method='crop' if op.get('opt', 0) >= 6 else 'pad',
+            sigma_clip=None if op.get('opt', 0) == 5 else SigmaClip(3.0),
+            interpolator=(BkgIDWInterpolator() if op.get('opt', 0) == 4
+                          else BkgZoomInterpolator()),
             exclude_percentile=50.0))
         self._keep(st, 'bkg2d', out, op)
         return out
@@ -484,14 +501,19 @@ class InputsMachine(Machine):
             import astropy.units as u
             thr = thr * u.Jy
         return self._run(st, op, lambda: detect_sources(
-            data, thr, 4, mask=mask))
+            data, thr, 4, mask=mask,
+            connectivity=4 if op.get('opt', 0) % 2 else 8))
 
     def _s_deblend(self, st, op, data, mask, error):
         from photutils.segmentation import deblend_sources
         P = st.P
+        o = op.get('opt', 0)
         return self._run(st, op, lambda: deblend_sources(
-            data, P['segm'], 4, nlevels=8, contrast=0.001,
-            progress_bar=False))
+            data, P['segm'], 4, nlevels=8,
+            contrast=[0.001, 0.0, 0.3, 1.0][o % 4],
+            mode=['exponential', 'linear', 'sinh'][o % 3],
+            relabel=bool(o % 2), labels=None if o < 6 else
+            [int(P['segm'].labels[0])], progress_bar=False))
 
     def _s_sourcefinder(self, st, op, data, mask, error):
         from photutils.segmentation import SourceFinder
@@ -513,6 +535,10 @@ class InputsMachine(Machine):
             if v in (2, 3):
                 kw['convolved_data'] = P['clean']
         kw['localbkg_width'] = 4 if v == 4 else 0
+        kw['apermask_method'] = ['correct', 'correct', 'mask', 'none'][
+            op.get('opt', 0) % 4]
+        if op.get('opt', 0) >= 6:
+            kw['kron_params'] = (2.5, 1.4, 3.0)
         out = self._run(st, op, lambda: SourceCatalog(data, P['segm'], **kw))
         self._keep(st, 'catalog', out, op)
         return out
@@ -524,8 +550,10 @@ class InputsMachine(Machine):
         cls = RadialProfile if v % 2 else CurveOfGrowth
         xy = (float(P['xpos'][0]), float(P['ypos'][0]))
         radii = np.arange(1, 8) if cls is CurveOfGrowth else np.arange(8)
-        out = self._run(st, op, lambda: cls(data, xy, radii, error=error,
-                                            mask=mask))
+        out = self._run(st, op, lambda: cls(
+            data, xy, radii, error=error, mask=mask,
+            method=['exact', 'center', 'subpixel'][op.get('opt', 0) % 3],
+            subpixels=3))
         self._keep(st, 'profile', out, op)
         return out
 
@@ -541,8 +569,13 @@ class InputsMachine(Machine):
             ph = IterativePSFPhotometry(model, 5, DAOStarFinder(5.0, 3.0),
                                         aperture_radius=4, maxiters=2)
         else:
+            from photutils.background import LocalBackground
+            o = op.get('opt', 0)
             ph = PSFPhotometry(model, 5, finder=DAOStarFinder(5.0, 3.0),
                                grouper=SourceGrouper(5) if v == 2 else None,
+                               localbkg_estimator=LocalBackground(4, 8)
+                               if o % 3 == 0 else None,
+                               xy_bounds=2.0 if o == 1 else None,
                                aperture_radius=4)
         if op['data'] == 'q' and init is not None:
             init = None
